@@ -88,10 +88,10 @@ def run_pubsub(ctx, relevant, line_oracle=None, sat_share=1):
     # flatbuffer payloads (Flatbuffer<UnboundedData>, dynamic data segment, PowerOfTwo strategy, initial reserved memory = a sample with one
     # entry): `loanf p l n` builds a title and n entries inside the loan, the builder outgrows the chunk and the loan is relocated into a new
     # segment (Sender::grow) while other samples are loaned / in flight / held; the same model — a relocating grow is invisible in it.
-    # Publishers are not dropped (as in slice mode); a loan that is overtaken by the send of a later loan of its publisher does not grow
-    core.diff_component(ctx, "pubsub", ["gen", "--seed", ctx.seed + 29, "--cases", 600 if quick else 10000, "--len", 60 if quick else 100, "fb"], cl,
+    # Publishers are not dropped (as in slice mode); `overtake`: loans grow whether or not a later loan of their publisher is sent first (after fix ca11a2f)
+    core.diff_component(ctx, "pubsub", ["gen", "--seed", ctx.seed + 29, "--cases", 600 if quick else 10000, "--len", 60 if quick else 100, "fb", "overtake"], cl,
                         label="pubsub.flatbuffer", line_oracle=line_oracle)
-    core.diff_component(ctx, "pubsub", ["gen", "--seed", ctx.seed + 31, "--cases", 100 if quick else 2000, "--len", 60 if quick else 100, "fb", "ipc"], cl,
+    core.diff_component(ctx, "pubsub", ["gen", "--seed", ctx.seed + 31, "--cases", 100 if quick else 2000, "--len", 60 if quick else 100, "fb", "overtake", "ipc"], cl,
                         label="pubsub.flatbuffer-ipc", line_oracle=line_oracle)
 
 
@@ -108,8 +108,8 @@ RULE = ("real Publisher / Subscriber ports of a publish-subscribe service driven
 ASSUME = ["every API call is one atomic step of the L1 model: concurrency between ports is covered below this level by the queue / index-set / connection theorems (C03, C09, C13), not here",
           "payloads: fixed-size u64, and [u64] slices on a dynamically growing data segment (segment ids are not part of the model: observable results are the same); in slice mode publishers "
           "are not dropped while their samples are in flight (a vanished publisher's not-yet-mapped segments are lost: documented limitation of dynamic segments, outside the model)",
-          "flatbuffer payloads: the whole content is built inside the `loanf` call (a loan only grows while its chunk lies in the newest segment of its publisher), a loan that is overtaken "
-          "by the send of a later loan of the same publisher does not grow, and no table field carries its default value: outside these restrictions the implementation misbehaves "
-          "(findings, see the comment at `FbLoan` in harness/src/c01_pubsub.rs: grow of a loan from an older segment, chunk size of a grown sample, non-zeroed builder memory); publishers are not dropped (as in slice mode)",
+          "flatbuffer payloads: the whole content is built inside the `loanf` call (a loan only grows while its chunk lies in the newest segment of its publisher: growing a loan of an "
+          "OLDER segment hits the open C15 finding `DynamicMemory::grow` aliases a bucket of the current segment; port-level replay in DESIGN.md) and no table field carries its default value "
+          "(the builder is handed non-zeroed memory: observation outside the 20 properties, DESIGN.md); publishers are not dropped (as in slice mode)",
           "backpressure strategy DiscardData; the blocking strategies spin on the same try_send (retry loop not modelled)",
           "request-response uses the same Sender/Receiver machinery (port/details); it is exercised by the C11 check"]
